@@ -30,13 +30,24 @@ def pin_xtime_JitterTicker_schedule : List String := ["func (r *JitterTicker) sc
   "if r.timer != nil {",
   "r.timer.Stop()",
   "}",
-  "v0 := r.d + time.Duration(rand.Int63n(int64(r.jitter*2)+1)) - (r.jitter)",
+  "var v0 uint64",
+  "if r.jitter <= math.MaxInt64/2 {",
+  "v0 = uint64(rand.Int63n(int64(r.jitter*2) + 1))",
+  "} else {",
+  "for v0 = rand.Uint64(); v0 > uint64(r.jitter)*2; v0 = rand.Uint64() {",
+  "}",
+  "}",
+  "v1 := r.d - r.jitter",
+  "v2 := time.Duration(math.MaxInt64)",
+  "if v0 <= uint64(math.MaxInt64-v1) {",
+  "v2 = v1 + time.Duration(v0)",
+  "}",
   "r.gen++",
-  "v1 := r.gen",
-  "r.timer = time.AfterFunc(v0, func() { })",
+  "v3 := r.gen",
+  "r.timer = time.AfterFunc(v2, func() { })",
   "func#0 {",
   "r.m.Lock()",
-  "if r.gen == v1 {",
+  "if r.gen == v3 {",
   "select {",
   "case r.c <- time.Now():",
   "default:",
